@@ -107,6 +107,45 @@ def mutations(s, rng, tier):
         yield "set+cut", s[:i] + bytes([v]) + s[i + 1:j]
 
 
+REAL_ONLY_OPS = ("cost.",)   # long streams through the real stream readers only (the model side is not run on them)
+
+
+def long_streams(rng, tier):
+    """streams of hundreds of packets for the stream readers, so that work or allocation that grows faster than
+    linearly with the input shows (goexec/total.go costLimit, reply [7 ..]; the watchdog for time).  Shapes: a PSI PID
+    whose payload is an endless run of non-PMT sections (the accumulation never completes), the same with unit starts
+    sprinkled in, a PMT whose last section is always cut, garbage with sync bytes, and plain multiples of 188."""
+    out = []
+    pid = PMT_PID
+
+    def packets(pay, pusi_every=0):
+        pk = b""
+        n = len(pay) // 184
+        for i in range(n):
+            pusi = i == 0 or (pusi_every and i % pusi_every == 0)
+            pk += bytes([0x47, (0x40 if pusi else 0) | (pid >> 8), pid & 255, 0x10 | (i & 15)]) + pay[i * 184:(i + 1) * 184]
+        return pk
+
+    def add(ent, b, n, kind):
+        out.append(Case("cost.%s %s" % (ent, hx(b)) + ("" if n is None else " %d" % n), kind=ent + ":long:" + kind, decides=True,
+                        nontrivial=True, theorem="C05 bounded cost of " + ent))
+
+    for npk in ((300, 1000) if tier == "quick" else (300, 700, 1000, 2000, 3000)):
+        body = b""
+        while len(body) < npk * 184:
+            body += bytes([rng.choice([0xC0, 0x42, 0x00]), 0xB0 | rng.randrange(4), rng.randrange(256)]) + b""
+            ln = ((body[-2] & 3) << 8) | body[-1]
+            body += bytes(rng.randrange(256) for _ in range(ln))
+        for kind, pk in (("never-complete", packets(b"\x00" + body)), ("unit-starts", packets(b"\x00" + body, 97))):
+            add("pkt.acc", pk, None, kind); add("psi.readpmt", pk, pid, kind); add("psi.readpmt", pk, -1, kind)
+            add("psi.readpat", pk, None, kind); add("psi.filter", pk, 101, kind); add("pkt.writer", pk, 0, kind)
+            add("pkt.sync", pk[1:], None, kind)
+        junk = bytes(rng.choice([0x47, 0x47, 0, 0xFF, rng.randrange(256)]) for _ in range(npk * 188 + rng.randrange(188)))
+        add("pkt.sync", junk, None, "garbage"); add("psi.readpat", junk, None, "garbage"); add("psi.readpmt", junk, 0x47, "garbage")
+        add("pkt.writer", junk, 3, "garbage"); add("pkt.acc", junk, None, "garbage")
+    return out
+
+
 def gen(rng, tier):
     out = []
     inputs = []
@@ -151,6 +190,7 @@ def gen(rng, tier):
                 seen.add(line)
                 out.append(Case(line, kind=ent + ":" + kind, decides=True, nontrivial=(kind != "seed"),
                                 theorem="C05 totality of " + ent))
+    out += long_streams(rng, tier)     # last: the random stream of the cases above is unchanged
     return out
 
 
@@ -340,6 +380,8 @@ def oracle(c, real, model):
     primary decoder ([0 u e]).  A difference breaks the tie between the totality theorems (Properties/C05*.v) and the
     code and is reported as a correspondence break ("fidelity:" prefix, see bin/check)."""
     op = c.line.split(" ")[0]
+    if op.startswith("cost.") and real.startswith("[0 1 "):
+        return ""      # long stream, real side only (REAL_ONLY_OPS): returned within the time and allocation bounds
     if real.startswith("[0 1 "):
         if not model.startswith("[0 1 "):
             return "fidelity: the real code returns, the model of %s answers %s" % (op, MODEL_CLASS.get(model, model))
@@ -349,6 +391,12 @@ def oracle(c, real, model):
         return ""
     if real.startswith("[0 0"):
         return "a read-only operation modified a caller-supplied buffer"
+    if real.startswith("[7 x"):
+        try:
+            txt = bytes.fromhex(real[4:-1]).decode("ascii", "replace")
+        except ValueError:
+            txt = real[:200]
+        return "memory not bounded by a small multiple of the input size: " + txt
     if real.startswith("[2"):
         return "panic at " + site(real) + ("" if model.startswith("[0 1") else " (model: %s)" % MODEL_CLASS.get(model, model))
     if real == "[3]":
